@@ -6,13 +6,14 @@ Objects.  `Ty` = scalar types of typesystem.py (`bits = none`: the unsized "floa
 `FAVerif.Gen.C08.tables` is REGENERATED from the repository on every run (fav/props/c08.py):
   `static`  the real `get_type` / `is_complex`, one real node per row (kind × operand types over
             {boolean, integer, integer32, integer64, float, float16, float32, float64, complex, complex64, complex128});
-  `np`      the dtype OBSERVED when the text the real numpy printer emits for that node is executed on numpy scalars;
+  `npOf`    the dtype OBSERVED when the text the real numpy printer emits for that node is executed on numpy scalars;
   `consts`, `symbols`  observed dtype of printed constants per value class / of the argument casts;
   `canon`   `type_to_target` (static type ↦ dtype it is printed as).
 `staticTy g i` = `get_type` at node `i` of the DAG `g`; `dynTy np g i` = dtype produced at node `i` under the oracle `np`.
 `Status` of a row: untyped (get_type raises) / unprintable / unobserved / error (code raises) / agree / disagree.
 
-"Finite whole domain": theorems marked so are `decide +kernel` over every row of the regenerated tables.
+"Finite whole domain": theorems marked so are `decide +kernel` over EVERY row of the regenerated tables
+(a Bool check per row, `Tables.allRows`), unpacked to the ∀-statement by `allRows_mem`.
 -/
 import FAVerif.Lemmas.Typing
 import FAVerif.Generated.C08Tables
@@ -22,6 +23,13 @@ open FAVerif.Typing FAVerif.Gen.C08
 
 /-! ### Tie of the hand port to the code -/
 
+/-- Bool form of `model_agree`: `modelRow` holds on every row of the regenerated table (finite whole domain). -/
+theorem model_check : tables.allRows modelRow = true := by decide +kernel
+
+/-- Bool form of `node_agree_partial` / `node_agree_exact`: the per-row agreement check `Tables.rowCheck` holds on every
+row of the regenerated tables (finite whole domain).  A row that breaks it is named by `Drivers/Typing.lean rows`. -/
+theorem row_check : tables.allRows tables.rowCheck = true := by decide +kernel
+
 /-- **model_agree** (finite whole domain).  On every row of the regenerated extensional table the hand port
 `nodeTy` returns what the real `Expr.get_type` returned (type, or "raises"), and `nodeIsComplex` what the real
 `is_complex` returned. -/
@@ -30,8 +38,9 @@ theorem model_agree :
       nodeTy r.kind (r.args.map some) = r.ty ∧
       nodeIsComplex r.kind (r.args.map (fun t => some t.isComplex)) = r.isComplex := by
   intro r hr
-  have h := allRows_mem tables modelRow (by decide +kernel) r hr
-  simpa [modelRow] using h
+  have h := allRows_mem tables modelRow model_check r hr
+  simp only [modelRow, Bool.and_eq_true] at h
+  exact ⟨(otyBeq_iff _ _).mp h.1, (oboolBeq_iff _ _).mp h.2⟩
 
 /-! ### Per-node agreement -/
 
@@ -46,8 +55,7 @@ theorem node_agree_partial :
     ∀ r ∈ tables.static, wtRow r.kind r.args = true → cause r.kind r.idx r.args = none →
       tables.status r ≠ .disagree := by
   intro r hr hwt hc
-  have h := allRows_mem tables tables.partialRow (by decide +kernel) r hr
-  simpa [Tables.partialRow, hwt, hc] using h
+  exact partial_of_rowCheck tables r (allRows_mem tables _ row_check r hr) hwt hc
 
 /-- **node_agree_exact** (finite whole domain).  The exclusion is exact: among well-typed rows on which the code
 produces a value, the rows that disagree are precisely those with a known cause. -/
@@ -56,26 +64,23 @@ theorem node_agree_exact :
       (tables.status r = .agree ∨ tables.status r = .disagree) →
       (tables.status r = .disagree ↔ (cause r.kind r.idx r.args).isSome = true) := by
   intro r hr hwt hst
-  have h := allRows_mem tables tables.exactRow (by decide +kernel) r hr
-  rcases hst with hst | hst <;> simpa [Tables.exactRow, hwt, hst] using h
+  exact exact_of_rowCheck tables r (allRows_mem tables _ row_check r hr) hwt hst
 
 /-- **node_agree_fails** (negation witnesses, one per deviation class; each is replayed on the real code by the
 harness).  E.g. `float64 + complex64` is typed complex64 (Type.max looks only at the complex operand's width) while
 NumPy yields complex128. -/
 theorem node_agree_fails :
-    tables.status ⟨.add, 0, [Ty.f64, Ty.c64], some Ty.c64, some true⟩ = .disagree ∧
-    tables.status ⟨.multiply, 0, [Ty.f32, Ty.f], some Ty.f32, some false⟩ = .disagree ∧
-    tables.status ⟨.subtract, 0, [Ty.i64, Ty.f32], some Ty.f32, some false⟩ = .disagree ∧
-    tables.status ⟨.maximum, 0, [Ty.f32, Ty.f64], some Ty.f64, some false⟩ = .disagree ∧
-    tables.status ⟨.copysign, 0, [Ty.f32, Ty.f64], some Ty.f32, none⟩ = .disagree ∧
-    tables.status ⟨.upcast, 0, [Ty.f], some Ty.f, none⟩ = .disagree ∧
-    tables.status ⟨.sqrt, 0, [Ty.i], some Ty.i, some false⟩ = .disagree ∧
-    tables.status ⟨.item, 0, [Ty.f32, Ty.f64], some Ty.f, some false⟩ = .disagree ∧
-    (∀ r ∈ [(⟨.add, 0, [Ty.f64, Ty.c64], some Ty.c64, some true⟩ : SRow), ⟨.multiply, 0, [Ty.f32, Ty.f], some Ty.f32, some false⟩,
-            ⟨.subtract, 0, [Ty.i64, Ty.f32], some Ty.f32, some false⟩, ⟨.maximum, 0, [Ty.f32, Ty.f64], some Ty.f64, some false⟩,
-            ⟨.copysign, 0, [Ty.f32, Ty.f64], some Ty.f32, none⟩, ⟨.upcast, 0, [Ty.f], some Ty.f, none⟩,
-            ⟨.sqrt, 0, [Ty.i], some Ty.i, some false⟩, ⟨.item, 0, [Ty.f32, Ty.f64], some Ty.f, some false⟩],
-        r ∈ tables.static ∧ wtRow r.kind r.args = true) := by
+    (tables.rowAt .add 0 [Ty.f64, Ty.c64]).map tables.status = some .disagree ∧
+    (tables.rowAt .multiply 0 [Ty.f32, Ty.f]).map tables.status = some .disagree ∧
+    (tables.rowAt .subtract 0 [Ty.i64, Ty.f32]).map tables.status = some .disagree ∧
+    (tables.rowAt .maximum 0 [Ty.f32, Ty.f64]).map tables.status = some .disagree ∧
+    (tables.rowAt .copysign 0 [Ty.f32, Ty.f64]).map tables.status = some .disagree ∧
+    (tables.rowAt .upcast 0 [Ty.f]).map tables.status = some .disagree ∧
+    (tables.rowAt .sqrt 0 [Ty.i]).map tables.status = some .disagree ∧
+    (tables.rowAt .item 0 [Ty.f32, Ty.f64]).map tables.status = some .disagree ∧
+    wtRow .add [Ty.f64, Ty.c64] = true ∧ wtRow .multiply [Ty.f32, Ty.f] = true ∧ wtRow .subtract [Ty.i64, Ty.f32] = true ∧
+    wtRow .maximum [Ty.f32, Ty.f64] = true ∧ wtRow .copysign [Ty.f32, Ty.f64] = true ∧ wtRow .upcast [Ty.f] = true ∧
+    wtRow .sqrt [Ty.i] = true ∧ wtRow .item [Ty.f32, Ty.f64] = true := by
   decide +kernel
 
 /-- **leaves_agree** (finite whole domain).  Argument casts and printed constants of every value class (Python bool /
@@ -84,17 +89,27 @@ a constant's static type is its like's type. -/
 theorem leaves_agree : tables.leavesOK = true := by
   decide +kernel
 
-/-- On the uniform families that all shipped algorithms live in — every operand boolean, float32 or complex64
-(resp. float64 / complex128, resp. float16) — NO well-typed row has a known deviation (finite whole domain). -/
+/-- **uniform_rows_clean** (finite whole domain).  On the uniform families that all shipped algorithms live in — every
+operand boolean, float32 or complex64 (resp. float64 / complex128, resp. float16) — a well-typed row has no known
+deviation, except Python max/min or `item` applied to operands of two DIFFERENT types of the family; and without a
+deviation class it does not disagree. -/
 theorem uniform_rows_clean :
     ∀ fam ∈ [[Ty.b, Ty.f32, Ty.c64], [Ty.b, Ty.f64, Ty.c128], [Ty.b, Ty.f16]],
-      ∀ r ∈ tables.static, (r.args.all (fam.contains ·)) = true → wtRow r.kind r.args = true →
-        cause r.kind r.idx r.args = none ∧ tables.status r ≠ .disagree := by
+      ∀ r ∈ tables.static, (r.args.all (fun t => fam.any (·.beq t))) = true → wtRow r.kind r.args = true →
+        (cause r.kind r.idx r.args = none ∧ tables.status r ≠ .disagree) ∨
+        cause r.kind r.idx r.args = some .builtinMaxMin ∨ cause r.kind r.idx r.args = some .itemHeterogeneous := by
   intro fam hfam r hr hargs hwt
-  have key : ∀ fam ∈ [[Ty.b, Ty.f32, Ty.c64], [Ty.b, Ty.f64, Ty.c128], [Ty.b, Ty.f16]],
-      tables.allRows (tables.familyRow fam) = true := by decide +kernel
-  have h := allRows_mem tables _ (key fam hfam) r hr
-  simpa [Tables.familyRow, hargs, hwt] using h
+  have key : ([[Ty.b, Ty.f32, Ty.c64], [Ty.b, Ty.f64, Ty.c128], [Ty.b, Ty.f16]].all
+      (fun fam => tables.allRows (tables.familyRow fam))) = true := by decide +kernel
+  have h := allRows_mem tables _ (List.all_eq_true.mp key fam hfam) r hr
+  simp only [Tables.familyRow, hargs, hwt, Bool.not_true, Bool.false_or] at h
+  cases hc : cause r.kind r.idx r.args with
+  | none =>
+    rw [hc] at h
+    refine Or.inl ⟨rfl, fun hd => ?_⟩
+    rw [hd] at h
+    simp [Status.isDisagree] at h
+  | some c => rw [hc] at h; cases c <;> simp at h ⊢
 
 /-! ### Lattice -/
 
@@ -128,7 +143,7 @@ theorem graph_agree_abstract (np : NP) (canon : Ty → Option Ty) (g : Graph) (h
   agree_of_allOK np canon g h
 
 /- FULL STATEMENT (false — see `graph_agree_fails`):
-     ∀ g, g.wf → (rows of g are well-typed uses inside the table) → ∀ i t d, staticTy g i = some t →
+     ∀ g, g.wf → (every row of g is a well-typed use inside the table) → ∀ i t d, staticTy g i = some t →
        dynTy tables.toNP g i = some d → tables.canonTy t = some d -/
 
 /-- **graph_agree.**  For every graph all of whose nodes are covered — the node's (kind, operand static types) row is
@@ -137,7 +152,7 @@ static type = observed dtype at EVERY node.  Per-node agreement is the kernel-ch
 (`node_agree_partial`, `model_agree`, `leaves_agree`), lifted to all graphs by the Typing induction. -/
 theorem graph_agree (g : Graph) (hc : tables.covered g = true) :
     ∀ i t d, staticTy g i = some t → dynTy tables.toNP g i = some d → tables.canonTy t = some d :=
-  agree_of_covered tables (by decide +kernel) leaves_agree g hc
+  agree_of_covered tables ⟨model_check, row_check⟩ leaves_agree g hc
 
 /-- The debug-level-1 assertion the printer emits for node `i` (`assert v.dtype == <printed static type>`) fires
 when the code produces a value whose dtype differs from the printed static type. -/
@@ -175,13 +190,13 @@ theorem is_complex_consistent_partial :
     ∀ r ∈ tables.static, ∀ t c, r.ty = some t → r.isComplex = some c → (icExcluded r = false ↔ c = t.isComplex) := by
   intro r hr t c ht hc
   have h := allRows_mem tables icRow (by decide +kernel) r hr
-  simp only [icRow, ht, hc, beq_iff_eq] at h
-  cases hx : icExcluded r <;> simp [hx] at h ⊢ <;> simpa using h
+  simp only [icRow, ht, hc] at h
+  cases hx : icExcluded r <;> cases hcc : c <;> cases htc : t.isComplex <;> simp_all
 
 /-! ### Non-vacuity -/
 
 /-- a covered, non-trivial graph with sharing: x,y : float32, z : complex64;
-`s = x + y; t = s * s; c = complex(t, x); w = c * z; r = abs(w); select(r < s, r, s)` -/
+`s = x + y; t = s * s; c = complex(t, x); w = c * z; r = abs(w); select(r < s, r, 1.5 like s)` -/
 def demo : Graph :=
   [.symbol Ty.f32, .symbol Ty.f32, .symbol Ty.c64, .op .add 0 [0, 1], .op .multiply 0 [3, 3], .op .complex 0 [4, 0],
    .op .multiply 0 [5, 2], .op .absolute 0 [6], .op .lt 0 [7, 3], .const .pyfloat 3, .op .select 0 [8, 7, 9]]
@@ -191,6 +206,6 @@ example : demo.wf = true ∧ tables.covered demo = true ∧ staticTy demo 10 = s
   decide +kernel
 
 example : Ty.f32.max Ty.f64 = Ty.f64 ∧ Ty.f64.max Ty.c64 = Ty.c64 ∧ Ty.c128.complexPart = some Ty.f64 ∧
-    Ty.f32.complexify = some Ty.c64 := by decide
+    Ty.f32.complexify = some Ty.c64 := by decide +kernel
 
 end FAVerif.Props.C08
